@@ -403,8 +403,68 @@ func specName(specs []c17KeySpec, i int) string {
 }
 
 // runC17Transport: a tampered file makes the transport answer from the origin.
+// runC17Swap: a stored file is replaced by ANOTHER intact file of the same cache (same key, valid ciphertext): the file of
+// one URI copied over the file of another one is an alteration of that file like any other, and must not be served.
+func runC17Swap(x *mc.X) {
+	what := mc.Pick(x, "replaced", []string{"entry by the other URI's entry", "index by the other URI's index", "both files by the other URI's files"})
+	dir := c17Dir()
+	defer os.RemoveAll(dir)
+	dsn := "fscache://" + dir + "?appname=app&encrypt=on&encrypt_key=" + c17Valid
+	w := world.New(world.Opt{DSN: dsn})
+	w.NoWait = true
+	const U2 = "http://example.com/another"
+	answer(w, RS{Status: 200, H: H("Cache-Control", "max-age=100000"), Body: []byte("tokX|body of the first resource")})
+	o1 := get(w, U)
+	f1 := c17Files(dir)
+	answer(w, RS{Status: 200, H: H("Cache-Control", "max-age=100000"), Body: []byte("tokY|body of the other resource")})
+	o2 := get(w, U2)
+	f2 := c17Files(dir)
+	if o1.Err != nil || o2.Err != nil || len(f1) != 2 || len(f2) != 4 {
+		x.Failf("harness: expected two files per stored resource", "%d then %d files", len(f1), len(f2))
+		return
+	}
+	split := func(fs map[string][]byte, skip map[string][]byte) (idx, ent string) {
+		var ps []string
+		for p := range fs {
+			if _, ok := skip[p]; !ok {
+				ps = append(ps, p)
+			}
+		}
+		sort.Slice(ps, func(i, j int) bool { return len(fs[ps[i]]) < len(fs[ps[j]]) })
+		return ps[0], ps[1] // the index is the smaller file
+	}
+	idx1, ent1 := split(f1, nil)
+	idx2, ent2 := split(f2, f1)
+	switch what {
+	case "entry by the other URI's entry":
+		_ = os.WriteFile(ent1, f2[ent2], 0o644)
+	case "index by the other URI's index":
+		_ = os.WriteFile(idx1, f2[idx2], 0o644)
+	default:
+		_ = os.WriteFile(ent1, f2[ent2], 0o644)
+		_ = os.WriteFile(idx1, f2[idx2], 0o644)
+	}
+	answer(w, RS{Status: 200, H: H("Cache-Control", "no-store"), Body: []byte("tokZ|fresh from the origin")})
+	o := get(w, U)
+	logObs(x, "GET of the first resource after "+what, o)
+	x.Evals(1)
+	x.Nontrivial("swap/" + what)
+	x.State("swap", what, obsClass(o))
+	if o.Panic != nil {
+		x.Failf("transport panicked on a replaced file", "%v", o.Panic)
+		return
+	}
+	if o.Err == nil && bytes.HasPrefix(o.Body, []byte("tokY")) {
+		x.Failf("a file copied over another one inside the cache is served ("+what+")", "GET %s returned the response stored for %s: %s", U, U2, o)
+	}
+}
+
 func runC17Transport(x *mc.X) {
-	which := mc.Pick(x, "file", []string{"index", "entry"})
+	which := mc.Pick(x, "file", []string{"index", "entry", "swapped"})
+	if which == "swapped" {
+		runC17Swap(x)
+		return
+	}
 	dir := c17Dir()
 	defer os.RemoveAll(dir)
 	dsn := "fscache://" + dir + "?appname=app&encrypt=on&encrypt_key=" + c17Valid
